@@ -21,3 +21,12 @@ Definition idx (l : list Z) (i : Z) : outcome Z :=
   match nth_error l (Z.to_nat i) with Some x => Val x | None => Panic end.
 Definition upd (l : list Z) (i v : Z) : list Z :=
   firstn (Z.to_nat i) l ++ v :: skipn (S (Z.to_nat i)) l.
+(* `let mut i = lo; while i < hi { body; i += 1; }` : the body runs for i = lo .. hi-1 on the
+   tuple of variables it assigns (structural recursion on the trip count, so no fuel is needed) *)
+Fixpoint for_loop {S : Type} (n : nat) (i : Z) (st : S) (body : Z -> S -> outcome S) : outcome S :=
+  match n with
+  | O => Val st
+  | S n' => do st' <- body i st ; for_loop n' (i + 1) st' body
+  end.
+Definition for_range {S : Type} (lo hi : Z) (st : S) (body : Z -> S -> outcome S) : outcome S :=
+  for_loop (Z.to_nat (hi - lo)) lo st body.
